@@ -764,6 +764,15 @@ func (t *TraefikOidc) processAuthorizedRequest(rw http.ResponseWriter, req *http
 		return
 	}
 
+	// Identity headers are derived from the verified session only: drop whatever
+	// the client sent under these names before (conditionally) setting them.
+	for _, name := range []string{"X-Forwarded-User", "X-Auth-Request-User", "X-Auth-Request-Token", "X-User-Groups", "X-User-Roles"} {
+		req.Header.Del(name)
+	}
+	for headerName := range t.headerTemplates {
+		req.Header.Del(headerName)
+	}
+
 	groups, roles, err := t.extractGroupsAndRoles(session.GetAccessToken())
 	if err != nil {
 		t.logger.Errorf("Failed to extract groups and roles: %v", err)
